@@ -702,6 +702,27 @@ impl<'a> VisitMut for Rewriter<'a> {
                 *e = n;
             }
         }
+        // R-ctorfn: a tuple-struct constructor passed as a function value, `.map(Ctor)`, is eta-expanded to
+        // `.map(|__x| Ctor(__x))` (Verus: "datatype constructor as a function value" unsupported)
+        if let Expr::MethodCall(mc) = e {
+            let m = mc.method.to_string();
+            if (m == "map" || m == "filter_map" || m == "and_then") && mc.args.len() == 1 {
+                let mut rep: Option<Expr> = None;
+                if let Expr::Path(p) = &mc.args[0] {
+                    if p.qself.is_none() && p.path.segments.len() == 1 {
+                        let id = &p.path.segments[0].ident;
+                        let n = id.to_string();
+                        if n.chars().next().map(|c| c.is_ascii_uppercase()).unwrap_or(false) && n != "Some" && n != "Ok" && n != "Err" {
+                            rep = Some(parse_quote!(|__x| #id(__x)));
+                        }
+                    }
+                }
+                if let Some(r) = rep {
+                    mc.args[0] = r;
+                    fire(self.fired, "R-ctorfn");
+                }
+            }
+        }
         // R-stradd: `E + "lit"` => vx_string_add(E, "lit")  (only String + &str type-checks with a literal on the right;
         // Verus 0.2026.09 has an internal error on the Add impl)
         {
